@@ -1,9 +1,13 @@
 import SlipVerif.Model.Lambda
+import SlipVerif.Model.LambdaCode
 import SlipVerif.Gen.Builtins
-/- C04 — obligations over the regenerated built-in table (Gen/Builtins.lean, rewritten by
-   /verif/extract from the repository sources on every run). -/
+import SlipVerif.Gen.LambdaCall
+import SlipVerif.Gen.BuiltinKeys
+/- C04 — obligations over the regenerated tables (Gen/Builtins.lean, Gen/LambdaCall.lean, rewritten
+   by /verif/extract from the repository sources on every run). -/
 namespace SlipVerif.Theorems.GenC04
-open SlipVerif.Lambda SlipVerif.Gen.Builtins
+open SlipVerif.Lambda SlipVerif.LambdaCode SlipVerif.Gen.Builtins
+open SlipVerif.Gen
 
 /-- **builtin_arity_consistent** — for every built-in whose documented lambda list could be paired
     with the literal `CheckArgCount(min, max)` of its `Call`: the checked bounds are the bounds of
@@ -18,6 +22,126 @@ theorem builtin_arity_consistent :
     with a literal argument count check (a renamed `CheckArgCount` or a reshaped `Define` would
     silently empty the obligation above) -/
 theorem table_not_vacuous : defineCount ≤ 2 * entries.length ∧ 0 < defineCount := by
+  decide +kernel
+
+/-! ### lambda.go / argcounterror.go / funcdoc.go as extracted (Gen/LambdaCall.lean)
+
+    What the code-level machine and the refinement theorems (Theorems/C04Impl.lean) consume is
+    re-checked by those proofs; the facts below are the remaining ones, which the machine takes
+    for granted or the harness relies on. -/
+
+/-- the marker constants of funcdoc.go are the markers of the model's parser, the mode constants
+    are the ones the tables are written in -/
+theorem markers_and_modes :
+    (∀ s ∈ [LambdaCall.ampOptional, LambdaCall.ampRest, LambdaCall.ampBody, LambdaCall.ampKey, LambdaCall.ampAux,
+            LambdaCall.ampAllowOtherKeys], isMarker s = true) ∧
+    [LambdaCall.ampOptional, LambdaCall.ampRest, LambdaCall.ampBody, LambdaCall.ampKey, LambdaCall.ampAux,
+      LambdaCall.ampAllowOtherKeys] = ["&optional", "&rest", "&body", "&key", "&aux", "&allow-other-keys"] ∧
+    [LambdaCall.reqMode, LambdaCall.optMode, LambdaCall.restMode, LambdaCall.keyMode, LambdaCall.auxMode] = [0, 1, 2, 3, 4] := by
+  decide
+
+/-- what is compared in the guards of Lambda.Call (the operators are consumed by the machine):
+    the argument count with the translated `requiredCount`, with the argument index; the length
+    of the collected &rest list with 0; the length of an &aux list form with 1 -/
+theorem guard_operands :
+    (LambdaCall.tooFew.lhs, LambdaCall.tooFew.rhs, LambdaCall.tooFewVia) = ("len(args)", "req", "lam.requiredCount()") ∧
+    (LambdaCall.loopExit.lhs, LambdaCall.loopExit.rhs) = ("len(args)", "ai") ∧
+    (LambdaCall.tooMany.lhs, LambdaCall.tooMany.rhs) = ("len(args)", "ai") ∧
+    (LambdaCall.restLet.lhs, LambdaCall.restLet.rhs) = ("len(rest)", "0") ∧
+    (LambdaCall.restLoop.cond.lhs, LambdaCall.restLoop.cond.rhs) = ("len(args)", "ai") ∧
+    (LambdaCall.keyLoop.cond.lhs, LambdaCall.keyLoop.cond.rhs) = ("len(args)", "ai") ∧
+    (LambdaCall.keyLoop.missingValue.lhs, LambdaCall.keyLoop.missingValue.rhs) = ("len(args)", "ai") ∧
+    (LambdaCall.auxEvalGuard.lhs, LambdaCall.auxEvalGuard.rhs) = ("len(list)", "1") := by
+  decide
+
+/-- a keyword is a symbol that starts with `:`; a non-keyword in key position raises; a repeated
+    keyword and an explicit nil are told from "absent" by presence in the new scope
+    (`boundHere` = presence in `s.Vars`, not the value, not the enclosing scopes) -/
+theorem keyword_and_presence :
+    LambdaCall.restLoop.kwChar = ':' ∧ LambdaCall.keyLoop.kwChar = ':' ∧
+    LambdaCall.keyLoop.nonKeywordRaises = true ∧ LambdaCall.boundHereIsPresence = true := by
+  decide
+
+/-- the conditions the harness recognises as "too few" / "too many" are the ones the code raises:
+    Lambda.Call and minMaxPanic (CheckArgCount, CheckSendArgCount) start their messages with these words -/
+theorem count_condition_prefixes :
+    LambdaCall.tooFewPrefix = "Too few arguments" ∧ LambdaCall.tooManyPrefix = "Too many arguments" ∧
+    LambdaCall.countMessagePrefixes = ["Too few arguments", "Too many arguments"] := by
+  decide
+
+/-- **checkArgCount_is_inArity** — the translated range test of `CheckArgCount` (and of
+    `CheckSendArgCount`) rejects an argument count exactly when it is outside `(min, max)` in the
+    sense of the model (`inArity`; a negative max = no upper bound): the numbers of the built-in
+    table mean in the code what `docConsistent` takes them to mean. -/
+theorem checkArgCount_is_inArity (n mn : Nat) (mx : Int) :
+    LambdaCall.checkArgCountFails n mn mx = !inArity (mn, if mx < 0 then none else some mx.toNat) n ∧
+    LambdaCall.checkSendArgCountFails n mn mx = LambdaCall.checkArgCountFails n mn mx := by
+  refine ⟨?_, rfl⟩
+  unfold LambdaCall.checkArgCountFails inArity
+  by_cases hneg : mx < 0
+  · have h0 : ¬ (0 : Int) ≤ mx := by omega
+    simp only [hneg, if_true, h0, decide_false, Bool.false_and, Bool.or_false, Bool.and_true]
+    by_cases h : n < mn
+    · have : (n : Int) < mn := by omega
+      have h2 : ¬ mn ≤ n := by omega
+      simp [this, h2]
+    · have : ¬ (n : Int) < mn := by omega
+      have h2 : mn ≤ n := by omega
+      simp [this, h2]
+  · have h0 : (0 : Int) ≤ mx := by omega
+    simp only [hneg, if_false, h0, decide_true, Bool.true_and]
+    by_cases h : n < mn <;> by_cases h2 : mx < (n : Int)
+    all_goals
+      have e1 : ((n : Int) < mn) = (n < mn) := by simp
+      have e2 : (n ≤ mx.toNat) = ¬ (mx < (n : Int)) := by
+        apply propext; constructor <;> intro h <;> omega
+      simp [e1, e2, h, h2]
+      try omega
+
+example : LambdaCall.checkArgCountFails 3 1 2 = true ∧ LambdaCall.checkArgCountFails 3 1 (-1) = false ∧
+    LambdaCall.checkArgCountFails 0 1 (-1) = true := by decide
+
+/-- DefLambda's element grammar: a symbol is a name, a list of exactly two elements with a symbol
+    first is a name with the default stored as written (`(name nil)` like `name`), anything else is
+    a type error — what `LambdaImpl.docArgOf` implements -/
+theorem defLambda_grammar :
+    LambdaCall.defLambdaElems = [("Symbol", "name"), ("List", "name-default"), ("default", "type-error")] ∧
+    LambdaCall.defLambdaListLen = ⟨"len(ta)", .ne, "2"⟩ ∧ LambdaCall.defLambdaDefaultStored = true := by
+  decide
+
+/-- the marker comparisons fold case everywhere except in the key section of the second pass -/
+theorem marker_fold_facts :
+    LambdaCall.markerFold = [(1, 0, true), (1, 1, true), (2, 0, true), (2, 1, true), (2, 2, true), (2, 3, false)] := by
+  decide
+
+/-! ### keyword arguments of built-ins (Gen/BuiltinKeys.lean) -/
+
+/-- built-ins whose keyword literals cannot be told from their documented keys by reading the
+    source (keyword *values* such as `:supersede` for `:if-exists`, key parsing shared through a
+    helper that serves several functions, keys read through a table): not judged. A fixed list —
+    a built-in that leaves the judged set by a code change breaks `builtin_keys_documented`. -/
+def keysNotJudged : List String := ["cl:adjust-array", "cl:close", "cl:count", "cl:count-if", "cl:delete",
+  "cl:delete-duplicates", "cl:find", "cl:find-if", "cl:make-array", "cl:make-hash-table", "cl:make-sequence", "cl:open",
+  "cl:pathname-directory", "cl:pathname-name", "cl:pathname-type", "cl:position", "cl:position-if", "cl:remove",
+  "cl:remove-duplicates", "cl:search", "cl:write", "cl:write-to-string", "clos:change-class", "csv:csv-read", "gi:decrypt",
+  "gi:decrypt-file", "gi:defsystem", "gi:encrypt", "gi:encrypt-file", "gi:make-app", "net:graphql-query", "net:make-socket",
+  "net:socket-receive", "net:socket-send", "net:socket-shutdown", "swank:create-server", "test:defsuite", "xml:xml-read",
+  "xml:xml-write"]
+
+def sameKeys (a b : List String) : Bool := a.all (b.contains ·) && b.all (a.contains ·)
+
+/-- **builtin_keys_documented** — for every built-in with a documented `&key` section (outside the
+    fixed not-judged list): the keywords its `Call` (and the package functions it calls) looks at
+    are exactly its documented keys — every documented key is looked up, no undocumented key is. -/
+theorem builtin_keys_documented :
+    BuiltinKeys.entries.all (fun e => keysNotJudged.contains e.name || sameKeys e.doc e.body) = true := by
+  decide +kernel
+
+/-- the key table is not vacuous: at least 100 built-ins with a `&key` section are found and at
+    least two thirds of them are judged -/
+theorem builtin_keys_not_vacuous :
+    100 ≤ BuiltinKeys.entries.length ∧
+    2 * BuiltinKeys.entries.length ≤ 3 * (BuiltinKeys.entries.filter (fun e => !keysNotJudged.contains e.name)).length := by
   decide +kernel
 
 end SlipVerif.Theorems.GenC04
